@@ -29,8 +29,8 @@ pub fn run(args: &[String]) {
     let n: usize = args.get(1).and_then(|s| s.parse().ok()).unwrap_or(50);
     let max_logues: f64 = args.get(2).and_then(|s| s.parse().ok()).unwrap_or(400.0);
     let mut rng = Rng::new(seed ^ 0xC11);
-    let counts = [0, 1, 2, 3, 4, 5, 7, 8, 9, 15, 16, 17, 31, 32, 33];
-    let thresholds = [0.0, 0.0, 0.0, 1e-12, 1e-9, 1e-6, 1e-4, 1e-3, 1e-2, 0.5, 0.9999];
+    let counts = [0, 1, 2, 3, 4, 5, 6, 6, 7, 8, 9, 10, 11, 12, 13, 14, 15, 16, 17, 31, 32, 33];
+    let thresholds = [0.0, 0.0, 0.0, 1e-12, 1e-9, 1e-6, 1e-4, 1e-3, 1e-3, 1e-2, 1e-2, 3e-2, 0.5, 0.9999];
     let syms = ["C", "H", "N", "O", "S", "Cl", "Br", "K", "B", "Li", "Si", "Mg", "F", "Na", "P", "Fe", "Cu", "Se"];
     let mut id = 0;
     let mut fixed: Vec<(Vec<(String, u16, i32)>, f64)> = vec![
